@@ -28,33 +28,44 @@ def configs(tier):
     return c
 
 
-def jobs_for(tier, mir, repo):
+def jobs_for(tier, mir, repo, facts=None):
+    """W below is the configured num_threads; the number of spawned workers and the consumer's receive come from the MIR"""
     jobs = []
-    for W, N in configs(tier):
+    facts = facts or {}
+    start = facts.get('spawn_start', 0)
+    cfg = {'consumer_may_time_out': facts.get('consumer', {}).get('recv', 'blocking') != 'blocking'}
+    for T, N in configs(tier):
+        W = max(T - start, 0)
         K = 4 * N + 3 * W + N + 1
+        extra = {'num_threads': T, 'consumer_timeout_ms': facts.get('consumer', {}).get('timeout_ms')}
         for q in ('witness', 'safety', 'stuck'):
-            jobs.append({'name': 'pipe W=%d n<=%d %s' % (W, N, q), 'which': 'pipe', 'W': W, 'cap': W, 'N': N, 'K': K,
-                         'n_mode': 'bounded', 'cfg': {}, 'query': q, 'mir': mir, 'repo': repo})
-        jobs.append({'name': 'pipe W=%d n<=%d termination' % (W, N), 'which': 'pipe', 'W': W, 'cap': W, 'N': N, 'K': K + 1,
-                     'n_mode': 'bounded', 'cfg': {}, 'query': 'termination', 'mir': mir, 'repo': repo})
+            jobs.append(dict({'name': 'pipe W=%d n<=%d %s' % (T, N, q), 'which': 'pipe', 'W': W, 'cap': T, 'N': N, 'K': K,
+                              'n_mode': 'bounded', 'cfg': dict(cfg), 'query': q, 'mir': mir, 'repo': repo}, **extra))
+        jobs.append(dict({'name': 'pipe W=%d n<=%d termination' % (T, N), 'which': 'pipe', 'W': W, 'cap': T, 'N': N, 'K': K + 1,
+                          'n_mode': 'bounded', 'cfg': dict(cfg), 'query': 'termination', 'mir': mir, 'repo': repo}, **extra))
     return jobs
 
 
 def native_replay(native, res, seed):
     """Replay a counterexample schedule against the real Pipe: the schedule is reproduced through per-item processing
     delays (the order in which computations finish) for several delay scales; returns failing claims."""
-    W, n = res['W'], res.get('n', res['N'])
+    W, n = res.get('num_threads', res['W']), res.get('n', res['N'])
+    if n == 0:
+        n = 2
     rng = random.Random(seed)
     patterns = [[0] * n, [(n - i) * 15 for i in range(n)], [(i % 2) * 25 for i in range(n)], [(i == 0) * 60 for i in range(n)]]
     for _ in range(6):
         patterns.append([rng.choice([0, 5, 20, 50]) for _ in range(n)])
     # very different processing speeds (seconds) - only tried when nothing failed so far
     patterns.append([6500] + [0] * max(0, n - 1))
+    if res.get('consumer_timeout_ms'):
+        # the consumer's receive gives up after a constant read from the MIR: one item slower than that
+        patterns.append([0] * (n - 1) + [int(res['consumer_timeout_ms']) + 1500])
     failed = set()
     for d in patterns:
         if failed and max(d + [0]) > 1000:
             break
-        k, v = native_ok(native.call('pipe_run', n=n, w=W, delays_ms=d, consume=-1, then='drain', _timeout=20.0))
+        k, v = native_ok(native.call('pipe_run', n=n, w=W, delays_ms=d, consume=-1, then='drain', _timeout=20.0 + max(d + [0]) / 1000.0))
         if k == 'timeout':
             failed.add('the iteration ends after the last item (no deadlock / livelock)')
             continue
@@ -98,7 +109,12 @@ def custom_main(tier, seed, mir, repo, get_native, procs):
     if not facts['capacity_is_num_threads'] or not facts['counter_starts_at_zero']:
         incon.append('structural premises of Pipe::new not recognised (channel capacity / initial turn counter): %r' %
                      {k: v for k, v in facts.items() if k != 'worker'})
-    results = run_jobs(jobs_for(tier, mir, repo), procs)
+    try:
+        facts.update(spawn_facts(prog, repo))
+        facts['consumer'] = consumer_facts(prog, repo, 'pipe')
+    except Unsupported as e:
+        incon.append(str(e))
+    results = run_jobs(jobs_for(tier, mir, repo, facts), procs)
     native = get_native()
     nval = 0
     replays = []
